@@ -51,13 +51,13 @@ class TimeActiveDecorator(TriggerHandlerDecorator, AutoKwargsDecorator):
             # the specifications are combined by timer_active_check: any of the positive ones
             # (if there are any) and none of the "not" ones
             _LOGGER.debug("time_active %s now %s, %s", self.args, now, self)
-            if await trigger.TrigTime.timer_active_check(self.args, now, self.dm.startup_time):
-                self.last_trig_time = time.monotonic()
-                return True
-            return False
+            return await trigger.TrigTime.timer_active_check(self.args, now, self.dm.startup_time)
 
-        self.last_trig_time = time.monotonic()
         return True
+
+    def dispatch_accepted(self, data: DispatchData) -> None:
+        """Start the hold-off period: every @state_active and @time_active accepted the trigger."""
+        self.last_trig_time = time.monotonic()
 
 
 class TimeTriggerDecorator(TriggerDecorator):
